@@ -155,4 +155,81 @@ def hrun {α : Type} [DecidableEq α] (cls : Bytes → α) (kind : QKind) (k : B
     let (db', q', r) := hstep cls kind k db q o
     (r, q'.mem, durable db' k) :: hrun cls kind k db' q' os
 
+/-! ## several queues of one kind in one Hold over one Subery -/
+
+/-- the in-memory queue object held at each key -/
+abbrev MS := Bytes → Q
+
+def setQ (ms : MS) (k : Bytes) (q : Q) : MS := fun k' => if k' = k then q else ms k'
+
+/-- an argument as the caller passes it: a RegDom/IceRegDom value (by serialisation), `None`, or any other object -/
+inductive Arg where
+  | ok (b : Bytes)
+  | none
+  | junk
+deriving DecidableEq, Repr
+
+/-- an operation as called, before the method has looked at its arguments -/
+inductive AOp where
+  | push (a : Arg)
+  | pull (emptive : Bool)
+  | extend (as : List Arg)
+  | clear
+  | remove (a : Arg)
+  | count (a : Arg)
+deriving Repr
+
+def argsOk : List Arg → Option (List Bytes)
+  | [] => some []
+  | .ok b :: as => (argsOk as).map (b :: ·)
+  | _ :: _ => Option.none
+
+/-- the `isinstance` checks every method of Durq / Dusq makes BEFORE it touches anything: either the validated
+operation, or the outcome of the rejected call (`push(None)` → False; a non-RegDom anywhere in a batch, as push or
+remove argument → HierError; `count` of a foreign object → 0).  The whole batch is checked before any element is used. -/
+def validate : AOp → Except QRes QOp
+  | .push (.ok b) => .ok (.push b)
+  | .push .none => .error (.bool false)
+  | .push .junk => .error (.raise .hierError)
+  | .pull e => .ok (.pull e)
+  | .extend as => match argsOk as with
+    | some bs => .ok (.extend bs)
+    | Option.none => .error (.raise .hierError)
+  | .clear => .ok .clear
+  | .remove (.ok b) => .ok (.remove b)
+  | .remove _ => .error (.raise .hierError)
+  | .count (.ok b) => .ok (.count b)
+  | .count _ => .error (.nat 0)
+
+inductive MOp where
+  | q (k : Bytes) (o : QOp)
+  | a (k : Bytes) (o : AOp)       -- as called: may be rejected
+  | reopen
+deriving Repr
+
+/-- `Hold` rebuilt after reopen: a fresh object injected at every key, in order; a failing inject stops -/
+def injectAll {α : Type} [DecidableEq α] (cls : Bytes → α) (kind : QKind) : List Bytes → Db → MS → Db × MS × Option Exn
+  | [], db, ms => (db, ms, none)
+  | k :: ks, db, ms => match inject cls kind k db with
+    | (db', .ok q) => injectAll cls kind ks db' (setQ ms k q)
+    | (db', .error x) => (db', ms, some x)
+
+def mstep {α : Type} [DecidableEq α] (cls : Bytes → α) (kind : QKind) (keys : List Bytes) (db : Db) (ms : MS) : MOp → Db × MS × QRes
+  | .q k o => ((qstep cls kind k db (ms k) o).1, setQ ms k (qstep cls kind k db (ms k) o).2.1, (qstep cls kind k db (ms k) o).2.2)
+  | .a k o => match validate o with
+    | .ok qo => ((qstep cls kind k db (ms k) qo).1, setQ ms k (qstep cls kind k db (ms k) qo).2.1, (qstep cls kind k db (ms k) qo).2.2)
+    | .error r => (db, ms, r)      -- rejected: nothing was touched
+  | .reopen => match injectAll cls kind keys db ms with
+    | (db', ms', none) => (db', ms', .bool true)
+    | (db', ms', some x) => (db', ms', .raise x)
+
+/-- per op: result and, for EVERY key of the Hold, in-memory content and durable content -/
+def mrun {α : Type} [DecidableEq α] (cls : Bytes → α) (kind : QKind) (keys : List Bytes) :
+    Db → MS → List MOp → List (QRes × List (List Bytes × Except Exn (List Bytes)))
+  | _, _, [] => []
+  | db, ms, o :: os =>
+    (((mstep cls kind keys db ms o).2.2,
+      keys.map (fun k => (((mstep cls kind keys db ms o).2.1 k).mem, durable (mstep cls kind keys db ms o).1 k))) ::
+      mrun cls kind keys (mstep cls kind keys db ms o).1 (mstep cls kind keys db ms o).2.1 os)
+
 end Hio.Store
